@@ -426,6 +426,8 @@ func (self *visitorUserNode) OnObjectBegin(capacity int) error {
 				return err
 			}
 		}
+		// the new frame keeps the descriptor; an empty object must not be taken for a pending scalar value at its end
+		self.globalFieldDesc = nil
 	}
 	return err
 }
@@ -579,6 +581,8 @@ func (self *visitorUserNode) OnArrayBegin(capacity int) error {
 		if err = self.push(false, false, true, self.globalFieldDesc, curNodeLenPos); err != nil {
 			return err
 		}
+		// the new frame keeps the descriptor; an empty array must not be taken for a pending scalar value at its end
+		self.globalFieldDesc = nil
 	}
 	return err
 }
